@@ -669,7 +669,14 @@ def check_gas_row(case, r, r0, names, G, kij, pr, info, ctx, step=0):
     # a fixed-pressure phase "exists" when it holds gas (the engine reports P = 0 and no moles otherwise); a fixed-volume
     # phase holds gas whenever its components are in the system
     exists = ntot >= 1e-12 and P > 0
-    need_finite(r, () if exists else ("gas_vm",))     # GAS_VM of a phase without gas is V / 0 mol: no relation uses it
+    if exists:
+        need_finite(r)
+    else:
+        # a phase without gas: GAS_VM is V / 0 mol and the -gases pressure/volume columns can be 0/0; the only relation
+        # asserted for such a row (existence criterion of a fixed-pressure phase) uses TK, SI and PR_PHI of the components
+        used = {"tk"} | {"%s%d" % (c, i) for c in "sf" for i in range(N)}
+        need_finite({k: v for k, v in r.items() if k in used})
+        ctx.event("gas_absent_readouts_not_asserted")
     Tk = r["tk"]
     rt = case["rtemp"]
     if isinstance(rt, (int, float)):
